@@ -21,7 +21,83 @@ def conc(v):
     if isinstance(v.t, TList):
         n = z3.simplify(list_len(v)).as_long()
         return [conc(Val(v.t.elem, z3.Select(list_arr(v), i))) for i in range(n)]
+    if isinstance(v.t, TOpt):
+        if z3.is_true(z3.simplify(opt_is_none(v))):
+            return None
+        return conc(opt_val(v))
+    if isinstance(v.t, TTuple):
+        return tuple(conc(tuple_get(v, i)) for i in range(len(v.t.elems)))
+    if isinstance(v.t, TNone):
+        return None
     raise TypeError(v.t)
+
+
+def lift(x):
+    if isinstance(x, bool):
+        return mk_bool(x)
+    if isinstance(x, int):
+        return mk_int(x)
+    if isinstance(x, str):
+        return mk_str(x)
+    if isinstance(x, list):
+        if not x:
+            return list_from(TList(INT), [])
+        vals = [lift(e) for e in x]
+        return list_from(TList(vals[0].t), vals)
+    raise TypeError(x)
+
+
+EXPR_CASES = [
+    # (expression, list of environments)
+    ('[(k, x) for k, x in enumerate(xs)]', [{'xs': l} for l in ([], [5], [5, 6, 7])]),
+    ('[k * 10 + x for k, x in enumerate(xs, start=2)]', [{'xs': l} for l in ([], [5], [5, 6, 7])]),
+    ('[k + len(w) for k, w in enumerate(ws[1:], start=1)]', [{'ws': l} for l in (['a'], ['a', 'bb'], ['a', 'bb', ''])]),
+    ('[(a, b) for a, b in zip_longest(xs, ys)]', [{'xs': a, 'ys': b} for a in ([1], [1, 2], [1, 2, 3]) for b in ([7], [7, 8])]),
+    ('[a if a else -1 for a, b in zip_longest(xs, ys)]', [{'xs': a, 'ys': b} for a in ([1], [0, 2]) for b in ([7], [7, 8, 9])]),
+    ('xs.index(v)', [{'xs': l, 'v': v} for l in ([3], [3, 4, 3], [1, 2, 3, 3]) for v in (3,)]),
+    ('xs.index(v, 1)', [{'xs': l, 'v': v} for l in ([3, 3], [3, 4, 3], [1, 2, 3, 3]) for v in (3,)]),
+    ('[None]', [{}]),
+    ('s[a:][k]', [{'s': 'abcdef', 'a': a, 'k': k} for a in (0, 2, 4) for k in (0, 1)]),
+    ('s.strip(" \t") == s.strip()', [{'s': x} for x in ('a', ' a ', '\ta b\t ')]),
+]
+
+
+def run_exprs(ex):
+    import ast as _ast
+    from itertools import zip_longest  # noqa: F401  (used by eval below)
+    n, bad = 0, []
+    ex.cur_fn = 'crosscheck:expr'
+    ex.cur_contract = None
+    ex.results = []
+    ex.cur_module = 'crosscheck'
+    for src, envs in EXPR_CASES:
+        node = _ast.parse(src, mode='eval').body
+        for env in envs:
+            st = State()
+            st.alloc = z3.IntVal(0)
+            for k, v in env.items():
+                st.env[k] = lift(v)
+            expected = eval(src, {'zip_longest': zip_longest}, dict(env))
+            try:
+                outs = [(s1, v) for s1, v in ex.ev(node, st) if not s1.dead]
+                vals = []
+                for s1, v in outs:
+                    # keep the outcomes whose path condition is satisfiable with the concrete inputs
+                    sol = z3.Solver()
+                    sol.add(*s1.pc)
+                    if sol.check() == z3.sat:
+                        m_ = sol.model()
+                        vals.append(conc(Val(v.t, m_.eval(v.e, model_completion=True)) if v.e is not None else v))
+                got = vals[0] if len(vals) == 1 else vals
+            except Exception as e:  # noqa
+                got = 'EXC %r' % (e,)
+            n += 1
+            exp = expected
+            if isinstance(exp, list):
+                exp = [tuple(x) if isinstance(x, (tuple, list)) else x for x in exp]
+            if got != exp:
+                bad.append(('expr', src, env, got, exp))
+    return n, bad
 
 
 def run(limit=None):
@@ -94,7 +170,8 @@ def run(limit=None):
             n += 1
             if sol.check() != z3.sat:
                 bad.append(('strip-axioms-exclude-cpython', s, name, chars, py))
-    return n, bad
+    n2, bad2 = run_exprs(ex)
+    return n + n2, bad + bad2
 
 
 if __name__ == '__main__':
